@@ -72,10 +72,10 @@ func RunAuth(c AuthCase) error {
 	signURL := clientURL
 	serverURL := u
 	switch c.Perturb {
-	case "setup-base", "setup-base-noslash":
+	case "setup-base", "setup-base-noslash", "base-other-method", "base-noslash-other-method":
 		// the client signs the base URL, the SETUP request goes to the track URL
 		base0 := strings.TrimSuffix(c.URL, "/")
-		if c.Perturb == "setup-base" {
+		if c.Perturb == "setup-base" || c.Perturb == "base-other-method" {
 			signURL, _ = base.ParseURL(base0 + "/")
 		} else {
 			signURL, _ = base.ParseURL(base0)
@@ -121,6 +121,17 @@ func RunAuth(c AuthCase) error {
 		se.AddAuthorization(req2)
 		srvReq.Header["Authorization"] = req2.Header["Authorization"]
 		wantOK = true
+	case "base-other-method", "base-noslash-other-method":
+		// the relaxation is for SETUP only: the same mismatch on any other method is a wrong URL
+		m := base.Method(c.Method)
+		if m == base.Setup {
+			m = base.Play
+		}
+		srvReq.Method = m
+		req2 := &base.Request{Method: m, URL: signURL, Header: base.Header{}}
+		se.AddAuthorization(req2)
+		srvReq.Header["Authorization"] = req2.Header["Authorization"]
+		wantOK = !digest
 	case "user":
 		user = c.Alt
 		wantOK = false
